@@ -90,17 +90,11 @@ Proof.
         pose proof (list_max_le vdepth (map (PInt false) rows) 0 ltac:(lia)
                       (fun x Hx => eq_ind_r (fun d => d <= 0) (Z.le_refl 0) (vdepth_ints rows x Hx))) as Hm;
         pose proof (list_max_nonneg vdepth (map (PInt false) rows)); unfold list_max in *; lia.
-    + apply andb_true_iff in Hnode as [H1 H2]. apply Z.leb_le in H1. apply Z.leb_le in H2.
-      apply Z.le_trans with (1 + r); [|lia]. apply vdepth_tag_le; [lia|]. intros x [<-|[<-|[]]]; assumption.
-    + apply andb_true_iff in Hnode as [H1 H2]. apply Z.leb_le in H1. apply Z.leb_le in H2.
-      apply Z.le_trans with (1 + r); [|lia]. apply vdepth_tag_le; [lia|]. intros x [<-|[<-|[]]]; assumption.
     + apply andb_true_iff in Hnode as [H12 H3]. apply andb_true_iff in H12 as [H1 H2].
       apply Z.leb_le in H1. apply Z.leb_le in H2. apply Z.leb_le in H3.
       destruct uinput; [simple_depth|].
       apply Z.le_trans with (1 + r); [|lia]. apply vdepth_tag_le; [lia|]. intros x Hx. apply trim_args_in in Hx.
       destruct Hx as [<-|[<-|[<-|[<-|[]]]]]; assumption.
-    + apply Z.leb_le in Hnode. apply Z.le_trans with (1 + r); [|lia]. apply vdepth_tag_le; [lia|].
-      intros x [<-|[]]; assumption.
   - remember (encode_f orc (S n) v) as e eqn:He.
     rewrite Nat2Z.inj_succ. unfold Z.succ. assert (HN : 0 <= Z.of_nat n) by lia.
     remember (Z.of_nat n) as N eqn:EN. clear EN.
@@ -136,10 +130,6 @@ Proof.
         pose proof (list_max_le vdepth (map (PInt false) rows) 0 ltac:(lia)
                       (fun x Hx => eq_ind_r (fun d => d <= 0) (Z.le_refl 0) (vdepth_ints rows x Hx))) as Hm;
         pose proof (list_max_nonneg vdepth (map (PInt false) rows)); unfold list_max in *; lia.
-    + apply andb_true_iff in Hnode as [H1 H2]. apply Z.leb_le in H1. apply Z.leb_le in H2.
-      apply Z.le_trans with (1 + r); [|lia]. apply vdepth_tag_le; [lia|]. intros x [<-|[<-|[]]]; assumption.
-    + apply andb_true_iff in Hnode as [H1 H2]. apply Z.leb_le in H1. apply Z.leb_le in H2.
-      apply Z.le_trans with (1 + r); [|lia]. apply vdepth_tag_le; [lia|]. intros x [<-|[<-|[]]]; assumption.
     + apply andb_true_iff in Hnode as [H12 H3]. apply andb_true_iff in H12 as [H1 H2].
       apply Z.leb_le in H1. apply Z.leb_le in H2. apply Z.leb_le in H3.
       destruct uinput as [u|].
@@ -149,8 +139,6 @@ Proof.
         specialize (IH u Hch). cbn [vdepth list_max fold_right]. pose proof (vdepth_nonneg (encode_f orc n u)). lia.
       * apply Z.le_trans with (1 + r); [|lia]. apply vdepth_tag_le; [lia|]. intros x Hx. apply trim_args_in in Hx.
         destruct Hx as [<-|[<-|[<-|[<-|[]]]]]; assumption.
-    + apply Z.leb_le in Hnode. apply Z.le_trans with (1 + r); [|lia]. apply vdepth_tag_le; [lia|].
-      intros x [<-|[]]; assumption.
 Qed.
 
 End Depth.
